@@ -51,6 +51,10 @@ type Case struct {
 	PerG  int    `json:"per_g"` // calls per caller
 	K     int    `json:"k"`     // distinct call specs
 	Sched uint64 `json:"sched"` // schedule perturbation (seeded yields / sleeps inside nodes)
+	// quick tier: the record snapshot is taken of the copy the concurrent calls used only (that copy also
+	// gets every spec alone afterwards, so whatever calls made one at a time write into a record shows
+	// there too); corpus cases and the thorough tier snapshot the reference copy as well
+	Light bool `json:"light,omitempty"`
 	// hand-written cases may pin shape parameters and the call specs
 	Force map[string]int `json:"force,omitempty"`
 	Specs []spec         `json:"specs,omitempty"`
@@ -106,6 +110,15 @@ func (engine) Generate(r *lib.Rng, tier string, i int) any {
 			c.G, c.PerG = 8, r.Range(2, 4)
 		}
 		c.K = r.Range(3, 6)
+		c.Light = true
+		if c.Kind == "ckpt" && c.G*c.PerG > 24 {
+			// a call of this kind is a whole interrupt / resume session (3-5 runs, each writing and reading
+			// a checkpoint): 16-24 concurrent sessions per case in the quick tier
+			c.PerG = 24 / c.G
+			if c.PerG < 1 {
+				c.G, c.PerG = 24, 1
+			}
+		}
 	}
 	return c
 }
@@ -319,13 +332,30 @@ func (engine) Run(ci any) lib.Result {
 			}
 		}
 	}
+	if obj.wantOpt != 0 && len(specs) >= 2 {
+		with := 0
+		for _, sp := range specs {
+			if sp.Opt&obj.wantOpt != 0 {
+				with++
+			}
+		}
+		if with == 0 {
+			specs[len(specs)-1].Opt |= obj.wantOpt
+		}
+		if with == len(specs) {
+			specs[0].Opt &^= obj.wantOpt
+		}
+	}
 	if len(c.Specs) > 0 {
 		specs = c.Specs
 	}
 	ctxPlain, ctxH := obj.baseCtx(false), obj.baseCtx(true)
 	fctxPlain, fctxH := fresh.baseCtx(false), fresh.baseCtx(true)
 	// what the two copies keep between runs, before anything has run on them (record.go)
-	snapFresh0, snapObj0 := takeSnap(fresh, fctxH), takeSnap(obj, ctxH)
+	snapFresh0, snapObj0 := takeSnap(fresh, fctxH), recSnap{}
+	if !c.Light {
+		snapObj0 = takeSnap(obj, ctxH)
+	}
 	projFresh0 := objProj(fresh)
 	tagNo := 0
 	next := func() int { tagNo++; return tagNo }
@@ -451,7 +481,10 @@ func (engine) Run(ci any) lib.Result {
 	// the compiled record after use: nothing reachable from the compiled object, its builder, the
 	// shared option values or the shared parent context (spare slice capacity included) may differ
 	// from what was there before the first call
-	snapFresh1, snapObj1 := takeSnap(fresh, fctxH), takeSnap(obj, ctxH)
+	snapFresh1, snapObj1 := takeSnap(fresh, fctxH), recSnap{}
+	if !c.Light {
+		snapObj1 = takeSnap(obj, ctxH)
+	}
 	projFresh1 := objProj(fresh)
 	for _, d := range diffSnap(snapFresh0, snapFresh1) {
 		fail("record-changed", "what the compiled object keeps between runs was modified by the calls (concurrent phase, then solo calls): "+d)
